@@ -20,6 +20,7 @@ func init() {
 			dialerUpgradeRules(c, "C16")
 			// a control frame cut inside its payload must not be answered as if it were complete
 			handlerRules(c, "C16")
+			discardedErrorRules(c, "C16")
 		},
 	})
 }
